@@ -722,7 +722,11 @@ def write_evidence(ctx, mod, audit_res, checker_cmd, violations, extra_notes):
         "obligations": obligations,
         "discharged": discharged,
         "checker_cmd": checker_cmd,
-        "trusted_base": TRUSTED_BASE + list(getattr(mod, "TRUSTED_EXTRA", [])),
+        "trusted_base": TRUSTED_BASE + list(getattr(mod, "TRUSTED_EXTRA", [])) + ([
+            "source-to-Lean translators (harness/translate/formulas.py, control.py, rng_sites.py): their reading of "
+            "Python / NumPy arithmetic as exact rational arithmetic, of boolean-mask assignments row-wise, of floats as "
+            "-inf / finite / other (PyribsModel/ExtRat.lean), and their variable and call tables; what they generated on "
+            "this run is listed under coverage.formulas / coverage.control_flow"] if hasattr(mod, "translate") else []),
         "theorems": {t: {"ok": ok, "axioms": ax} for t, (ok, ax) in audit_res.items()},
         "evaluations": ctx.evaluations,
         "traces_validated_against_impl": ctx.validated,
